@@ -16,8 +16,15 @@ fn chain_case(rng: &mut Rng, rec: &mut Rec) {
         cfg.ver = Ver::V10;
     }
     if rng.chance(1, 3) {
-        // the caller spelled out the Host of the first request (one more header a redirect has to deal with)
-        let h = host_of(&split_uri(&cfg.uri));
+        // the caller spelled out the Host of the first request (one more header a redirect has to deal with);
+        // now and then it names another host than the URI does (a virtual host behind an address): where
+        // the request WENT is what "the original request's host" means for the credentials
+        let h = if rng.chance(1, 4) {
+            rec.cov("original/host-header-names-another-host");
+            (*rng.pick(&CLEAN_HOSTS)).to_string()
+        } else {
+            host_of(&split_uri(&cfg.uri))
+        };
         cfg.orig.push(("host".into(), h.into_bytes()));
         rec.cov("original/explicit-host");
     }
@@ -99,7 +106,14 @@ fn chain_case(rng: &mut Rng, rec: &mut Rec) {
     }
     let mut f = flow.proceed();
     rec.call();
-    match write_head_big(&mut f) {
+    // (half of the last heads go out through small buffers: what is suppressed stays suppressed when the
+    // head is written in pieces)
+    let small = rng.chance(1, 2);
+    if small {
+        rec.cov("redirected/head-through-small-buffers");
+    }
+    let written = if small { write_head_small(&mut f, rng) } else { write_head_big(&mut f) };
+    match written {
         Ok(head) => {
             check_head(&head, &cfg, &eff, policy, &original, hops, rec);
         }
@@ -199,6 +213,8 @@ impl Property for P {
         v.push(("original/despite-method-with-content-length".into(), 100));
         v.push(("redirected/despite-method".into(), 100));
         v.push(("original/explicit-host".into(), 1000));
+        v.push(("original/host-header-names-another-host".into(), 300));
+        v.push(("redirected/head-through-small-buffers".into(), 1000));
         v
     }
 }
